@@ -99,6 +99,12 @@ func RunWith(db objects.Store, baseSum []byte, otherSums [][]byte, mode string, 
 		}
 		if m.ColDiff != nil {
 			cd = m.ColDiff
+			// like outputConflicts: the layout is asked for as soon as the first message is in
+			// hand, while the collector goroutine goes on
+			if cols := merger.Columns(nil); len(cols) != cd.Len() {
+				return nil, fmt.Errorf("right after the layout message Columns() has %d names, the layout %d", len(cols), cd.Len())
+			}
+			_ = merger.PK()
 			continue
 		}
 		u := &Unres{PK: append([]byte{}, m.PK...), HasBase: m.Base != nil}
